@@ -94,6 +94,11 @@ func probes() []probe {
 				svc(n("Result").With(n("Attribute", s("a"), c("String"))), n("Error", s("e"), dt.Ref("v1")),
 					n("HTTP").With(n("GET", s("/")), n("Response", s("e"), c("StatusNotFound")).With(n("Body", s("a")))))),
 			func(o outcome) bool { return o.Panic != "" || o.Accepted }},
+		{"C12-empty-grpc-message-dsl-panics", `GRPC(func(){ Message(func(){}) }) with an object payload`,
+			prog(svc(n("Payload").With(n("Field", dt.I(1), s("a"), c("String"))), n("GRPC").With(n("Message").With()))), func(o outcome) bool { return o.Panic != "" }},
+		{"C12-grpc-message-missing-attribute-after-valid-one-accepted", `GRPC(func(){ Message(func(){ Attribute("a"); Attribute("nope") }) })`,
+			prog(svc(n("Payload").With(n("Field", dt.I(1), s("a"), c("String")), n("Field", dt.I(2), s("b"), c("String"))),
+				n("GRPC").With(n("Message").With(n("Attribute", s("a")), n("Attribute", s("nope")))))), func(o outcome) bool { return o.Panic != "" || o.Accepted }},
 		{"C12-type-level-view-then-other-view-panics", `ResultType Leaf{views default,tiny} with View("default") at type level; Result(Leaf, func(){ View("tiny") })`,
 			prog(
 				n("ResultType", s("application/vnd.leaf")).With(
